@@ -47,6 +47,14 @@ CLAIMED = {
          "(mapping XML parsed by the real code), each also with a parent moved by a lattice vector and with all atoms translated.",
          "Lean kernel + three standard axioms; harness/driver; IEEE rounding not modelled; csg_map file formats are covered by C08, not here.",
          "6/C01"),
+ "C03": ("Lean 4 proof (grid scan = brute-force pairs as a permutation for one and two lists under Nodup+complete cell lists; membership "
+         "characterisation of the brute-force list; index wrap, offset distinctness/completeness, floor adjacency, short-vector-within-one-cell by "
+         "Cauchy-Schwarz, dual scaled normals; exclusion predicate) + correspondence with the real grid/simple pair and 3-body searches",
+         "List-level theorems hold for every bead list and closeness predicate; geometric theorems supply their hypotheses per direction for every box, "
+         "cutoff and cell count. Tied to the working tree by running NBListGrid, NBList, NBListGrid_3Body, NBList_3Body with a counting callback on generated "
+         "configurations; results compared as sets with the model scan and with an independent 27-image brute force, stored vectors solved for lattice offsets.",
+         "Lean kernel + three standard axioms; harness/driver; 3-D assembly of the per-direction lemmas checked per configuration; 3-body grid scan order not modelled.",
+         "6/C03"),
 }
 REASONS = {}
 
